@@ -81,7 +81,8 @@ Fixpoint all_some (l : list (option Z)) : option (list Z) :=
 
 (* Node.emitting_channels / If.emitting_channels *)
 Definition emitting (g : flow) (outs : list (option Z)) (isfailed : bool) (n : nat) : list osig :=
-  (if isfailed then OFailed else ORan) ::
+  if isfailed then [OFailed]          (* a failed If announces only its failure, whatever truth it still holds *)
+  else ORan ::
   match f_kind (node g n) with
   | KIf => match nth n outs None with None => [] | Some v => if (v =? 0)%Z then [OFalse] else [OTrue] end
   | _ => []
